@@ -136,6 +136,31 @@ func enumerateCbor(tier string, shard, n int, timeUp func() bool, emit func(p se
 		at([]seqx.Field{{M: "Time", Key: "k", Val: t}}, pickSites(sites, "event", "context", "array", "fieldsmap"), []seqx.Entry{entryLog}, []seqx.Final{send})
 		at([]seqx.Field{{M: "Times", Key: "k", Val: []time.Time{t, seqx.TEp}}}, pickSites(sites, "event", "fieldsmap"), []seqx.Entry{entryLog}, []seqx.Final{send})
 	}
+	// every single global-setting deviation that both builds honour (the binary build carries instants and
+	// float bits, so it ignores TimeFieldFormat and FloatingPointPrecision by design) x single symbols,
+	// with and without Stack() before them
+	for si, st := range seqx.AllSettings() {
+		if strings.HasPrefix(st.Name, "TimeFieldFormat") || strings.HasPrefix(st.Name, "FloatingPointPrecision") {
+			continue
+		}
+		for _, a := range A {
+			if cborExcluded(a) {
+				continue
+			}
+			for _, chain := range [][]seqx.Field{{seqx.Rekey(a, 0)}, {{M: "Stack"}, seqx.Rekey(a, 0)}} {
+				for _, s := range core {
+					steps, fields, ok := s.Build(chain)
+					if !ok {
+						continue
+					}
+					prog(seqx.Program{Settings: []int{si}, Steps: steps, Entry: entryInfo, Fields: fields, Final: msgM}, s.Name)
+				}
+			}
+		}
+		if timeUp() {
+			return
+		}
+	}
 	for _, a := range A {
 		for _, b := range A {
 			at([]seqx.Field{seqx.Rekey(a, 0), seqx.Rekey(b, 1)}, core, []seqx.Entry{entryInfo}, []seqx.Final{msgM})
